@@ -89,7 +89,7 @@ TBad ==
 
 TOther ==
   /\ l <= NL
-  /\ \/ E.e \in {"A", "Visit", "Mem", "SrcCheck", "DropElem", "CloneElem", "Partial", "End", "NextEnter", "NextExit"}
+  /\ \/ E.e \in {"A", "Visit", "Mem", "SrcCheck", "DropElem", "CloneElem", "Partial", "End", "NextEnter", "NextExit", "HintRead"}
      \/ (ign /\ E.e \in {"Call", "Ret"})
   /\ Adv /\ Keep
 
